@@ -274,8 +274,30 @@ def _stoch_work(job):
     return n, hi - lo, fails
 
 
+def judge_large_view(name, h, w, origin, walls):
+    """laws on a view too large to enumerate all patterns: all-floor and patterns with the given wall cells"""
+    pattern = 0
+    for (y, x) in walls:
+        pattern |= 1 << (y * w + x)
+    return judge_pattern(name, pattern, h, w, origin, {})
+
+
+def large_views():
+    """view sizes whose number of rays (h+1)(w+1) sits at / around powers of two (counter widths) and other unusual shapes"""
+    out = []
+    for h, w in ((1, 127), (3, 63), (7, 31), (15, 15), (1, 255), (3, 127), (15, 31), (1, 63), (9, 9), (11, 5), (2, 85)):
+        origin = (h - 1, w // 2)
+        walls_sets = [(), ((0, 0),), ((max(0, h - 2), w // 2),), ((h - 1, max(0, w // 2 - 1)), (h - 1, min(w - 1, w // 2 + 1)))]
+        for walls in walls_sets:
+            walls = tuple(c for c in walls if c != origin)
+            out.append((h, w, origin, walls))
+    return out
+
+
 def replay(case):
     k = case['kind']
+    if k == 'large':
+        return judge_large_view(case['name'], case['h'], case['w'], tuple(case['origin']), [tuple(c) for c in case['walls']])
     if k == 'vis':
         return judge_pattern(case['name'], case['pattern'], case['h'], case['w'], tuple(case['origin']), {})
     if k == 'ni':
@@ -317,6 +339,22 @@ def run(rep, tier, seed):
     for n, _, fl in pmap(_vis_work, jobs):
         vn += n
         fails.extend(fl)
+    def large_work(item):
+        h, w, origin, walls = item
+        out = []
+        for name in ('raytracing', 'partially_occluded'):
+            m = judge_large_view(name, h, w, origin, walls)
+            if m:
+                out.append({'kind': 'large', 'name': name, 'h': h, 'w': w, 'origin': list(origin), 'walls': [list(c) for c in walls],
+                            'message': f'{name} view {h}x{w} (rays: {(h + 1) * (w + 1)}), walls {list(walls)}: {m}',
+                            'sig': {'fn': name, 'part': 'large_view'}, 'simplicity': 100 + len(walls)})
+        return out
+
+    lv = large_views()
+    for fl in pmap(large_work, lv):
+        fails.extend(fl)
+    rep.part('large_views', views=sorted({(h, w) for h, w, _, _ in lv}), cases=len(lv) * 2,
+             rule='view sizes whose ray count (h+1)(w+1) is 128, 256 or 512 (and neighbours): all-floor and three wall placements')
     rep.part('visibility_patterns', views=len(views), patterns=vn)
     worlds = [(2, 3), (3, 2), (3, 3), (2, 4), (4, 2), (1, 5)] if tier == 'quick' else [(2, 3), (3, 2), (3, 3), (3, 4), (4, 3), (2, 4), (4, 2), (1, 5), (5, 1), (2, 5)]
     ni_jobs = [(sh, i, 32, ['partially_occluded', 'raytracing']) for sh in worlds for i in range(32)]
